@@ -48,7 +48,27 @@ def load_events(path):
     return evs
 
 
+def resolve_owners(evs):
+    """The tracer drops its (analyzer action -> owning package) table when runAnalyzers collects the
+    diagnostics; a root handler running in its own goroutine (and the last `done` of the handler that
+    enqueued the root) may log after that and then carries the owner "?".  Such an event belongs to the
+    package of the previous event of the same goroutine about the same analyzer."""
+    last = {}
+    for e in evs:
+        if e.get("an"):
+            k = (e["g"], e["an"])
+            if e["pkg"] == "?":
+                if k in last:
+                    e["pkg"] = last[k]
+            else:
+                last[k] = e["pkg"]
+        if e.get("tan") and e.get("tpkg") == "?":
+            e["tpkg"] = e["pkg"]
+    return evs
+
+
 def split_runs(evs):
+    resolve_owners(evs)
     runs = {}
     for e in evs:
         runs.setdefault(e["run"], []).append(e)
@@ -150,7 +170,7 @@ def _rec(e):
 
 def linearize(run):
     """Return (ordered strict events, number of events that moved)."""
-    kept = [e for e in run if e["ev"] in STRICT_EVENTS]
+    kept = [e for e in run if e["ev"] in STRICT_EVENTS and e["pkg"] != "?"]
     idx = {id(e): i for i, e in enumerate(kept)}
     n = len(kept)
     succ = [[] for _ in range(n)]
@@ -245,7 +265,7 @@ def raw_records(run):
     out = []
     for e in run:
         ev = e["ev"]
-        if ev in GRAPH_EVENTS or ev in CACHE_EVENTS or ev == "abegin":
+        if ev in GRAPH_EVENTS or ev in CACHE_EVENTS or ev == "abegin" or e["pkg"] == "?":
             continue
         r = _rec(e)
         r["l"] = [str(x) for x in (e.get("l") or [])]
@@ -267,6 +287,9 @@ def analyse_run(run, label=""):
         ti.notes.append("linearize: cyclic constraints")
         ti.reordered = 0
     ti.raw = raw_records(run)
+    unk = sum(1 for e in run if e["pkg"] == "?")
+    if unk:
+        ti.notes.append("%d events with unknown owner dropped" % unk)
     ti.complete = any(e["ev"] == "finalize" for e in run)
     ti.errors = [(e["ev"], e["pkg"], e["an"], e.get("s", "")) for e in run if e["ev"] in ("exec_err", "loadfail")]
     fin = [e for e in run if e["ev"] == "finalize"]
